@@ -66,10 +66,10 @@ var properties = map[string]propSpec{
 	},
 	"C02": {
 		Bounds: [2]map[string]any{
-			{"rows": "0..2 (0..1 nested)", "operands": "any non-NaN float64; for DIV % & | ^ << >> ~ |operand| < 2^62, divisor/modulus non-zero, shift count 0..63", "expressions": "+ - * / on columns and constants, nesting depth 2, 4 precedence/associativity forms, unary - ~ !, CASE with 1-2 WHEN and optional ELSE, 6 key-set forms"},
+			{"rows": "0..2 (0..1 nested)", "operands": "any non-NaN float64; for DIV % & | ^ << >> ~ |operand| < 2^62, divisor/modulus non-zero, any non-negative shift count", "expressions": "+ - * / on columns and constants, nesting depth 2, 4 precedence/associativity forms, unary - ~ !, CASE with 1-2 WHEN and optional ELSE, 6 key-set forms"},
 			{"rows": "0..3", "operands": "same", "expressions": "same"},
 		},
-		Outside: []string{"operands outside ±2^62 for the integer operators", "division by zero", "expression depth > 2", "math.Mod is an uninterpreted function on symbolic operands"},
+		Outside: []string{"operands outside ±2^62 for the integer operators", "division by zero", "expression depth > 2", "math.Mod is an uninterpreted function on symbolic operands (except x mod 1, encoded exactly)"},
 	},
 	"C03": {
 		Bounds: [2]map[string]any{
@@ -80,28 +80,28 @@ var properties = map[string]propSpec{
 	},
 	"C04": {
 		Bounds: [2]map[string]any{
-			{"sides": "|l| 0..2, |r| 0..2 (two-column conditions: ≤3 rows in total); PARALLEL: ≤3 rows in total", "keys": "any non-NaN float64 except -0 (opaque key text), or strings ≤1 byte over {a,b} for the single-column conditions", "joins": "JOIN/LEFT/RIGHT × plain/HASH_JOIN/STRAIGHT_JOIN(inner) × 9 ON conditions (=, flipped, two-column in both orders, <, !=, OR, mixed, >=); two-column joins on the integer keys {1,2,3,12,23} whose texts can be confused", "schedules": "PARALLEL variants: every schedule with ≤1 preemption at synchronisation granularity, race monitor on", "map iteration": "every order at the join loops"},
+			{"sides": "|l| 0..2, |r| 0..2 (two-column conditions: ≤3 rows in total); PARALLEL: ≤3 rows in total", "keys": "any non-NaN float64 except -0 (opaque key text), or strings ≤1 byte over {a,b} for the single-column conditions", "joins": "JOIN/LEFT/RIGHT × plain/HASH_JOIN/STRAIGHT_JOIN(inner) × 9 ON conditions (=, flipped, two-column in both orders, <, !=, OR, mixed, >=); two-column joins on the integer keys {1,2,3,12,23} whose texts can be confused; mixed-kind keys (1, '1', 2, '2', '1.0', true, 'true') on 2×2 rows under = and <", "schedules": "PARALLEL variants: every schedule with ≤1 preemption at synchronisation granularity, race monitor on", "map iteration": "every order at the join loops"},
 			{"sides": "|l| 0..3, |r| 0..2; PARALLEL ≤4 rows in total", "keys": "same", "joins": "same", "schedules": "≤2 preemptions", "map iteration": "same"},
 		},
 		Outside: []string{"INTO grouping joins", "more than two tables", "NaN keys", "SHA-256 collision freedom and injectivity of base64 are assumed for the hash keys"},
 	},
 	"C05": {
 		Bounds: [2]map[string]any{
-			{"rows": "0..3", "limit,offset": "any int in [0,2^31)", "sort keys": "1-2 numeric keys × ASC/DESC/default, one string key ≤2 bytes, nullable numeric key"},
+			{"rows": "0..3", "limit,offset": "any int in [0,2^63)", "sort keys": "1-2 numeric keys × ASC/DESC/default, one string key ≤2 bytes, nullable numeric key"},
 			{"rows": "0..4", "limit,offset": "same", "sort keys": "same"},
 		},
 		Outside: []string{"sort inputs above 12 elements (pdqsort paths; insertionSortLessFunc is what runs below)", "NaN sort keys"},
 	},
 	"C06": {
 		Bounds: [2]map[string]any{
-			{"rows": "DISTINCT: 0..3 numeric rows × 2 columns, 0..2 string rows (≤3 bytes over {' ',':','b'}); UNION: branches of 0..2 rows, 2 and 3 branches, UNION/UNION ALL mixes, parenthesised nested unions with their own LIMIT, LIMIT 0..10"},
+			{"rows": "DISTINCT: 0..3 numeric rows × 2 columns, 0..2 string rows (≤3 bytes over {' ',':','b'}); UNION: branches of 0..2 rows, 2 and 3 branches, UNION/UNION ALL mixes, parenthesised nested unions with their own LIMIT, LIMIT 0..10, LIMIT 0..10 OFFSET 0..5 on UNION and UNION ALL; DISTINCT with LIMIT 0..4 OFFSET 0..4"},
 			{"rows": "DISTINCT: 0..4 numeric rows; otherwise same"},
 		},
 		Outside: []string{"nested values in DISTINCT rows", "-0 cells", "ORDER BY on a union"},
 	},
 	"C07": {
 		Bounds: [2]map[string]any{
-			{"documents": "0..2 rows × 2 numeric columns; nested arrays of 0..2 rows", "pipelines": "5 inner (incl. whole-table aggregates) × 5 outer queries × {CTE, aliased derived table, chained CTEs}; a CTE referenced twice, a CTE joined with itself, a three-stage chain; select-list subquery, IN (SELECT), EXISTS (constant and correlated), `<-` root reference"},
+			{"documents": "0..2 rows × 2 numeric columns; nested arrays of 0..2 rows", "pipelines": "5 inner (incl. whole-table aggregates) × 5 outer queries × {CTE, aliased derived table, chained CTEs}; a CTE referenced twice, a CTE joined with itself, a three-stage chain; select-list subquery, IN (SELECT), EXISTS (constant and correlated), `<-` root reference; a CTE shadowing a document key, a WITH nested in a derived table (alone and redefining an outer CTE name)"},
 			{"documents": "0..3 rows", "pipelines": "same"},
 		},
 		Outside: []string{"pipelines longer than three stages", "CTE column paths beyond the listed shapes"},
@@ -122,7 +122,7 @@ var properties = map[string]propSpec{
 	},
 	"C10": {
 		Bounds: [2]map[string]any{
-			{"queries": "36 malformed/unsupported/failing templates × 8 option combinations on a small symbolic document", "preprocessors": "every byte string ≤5 over {\" ' ` \\ [ ] a 0xC3}", "goroutines": "ASYNC/SPIN/SPINASYNC calls of failing and panicking functions, PARALLEL joins with failing ON: every schedule with ≤1 preemption"},
+			{"queries": "36 + 32 malformed/unsupported/failing templates (INTO joins with unmatched rows, AWAIT forms, dual, selector functions and pipes in FROM, type-confused operands) × option combinations on a small symbolic document; every built-in function × 14 argument lists (wrong counts, wrong kinds, NULL) × {plain, ASYNC, SPIN, ONCE} × {select list, WHERE}", "preprocessors": "every byte string ≤5 over {\" ' ` \\ [ ] a 0xC3}", "goroutines": "ASYNC/SPIN/SPINASYNC calls of failing and panicking functions, PARALLEL joins with failing ON: every schedule with ≤1 preemption"},
 			{"queries": "same", "preprocessors": "≤7 bytes", "goroutines": "same"},
 		},
 		Outside: []string{"sqlparser.Parse on arbitrary bytes: the generated LALR parser is not encodable, so 'all byte strings as queries' is covered only through the template list"},
@@ -135,14 +135,14 @@ var properties = map[string]propSpec{
 	},
 	"C12": {
 		Bounds: [2]map[string]any{
-			{"documents": "0..2 rows with one nested row", "queries": "22 templates (ASYNC inside CTE, derived table and subquery read through SELECT *) covering every expression form and clause position (tuples, ARRAY, CASE, subqueries, EXISTS, IF/CONCAT, GROUP BY, joins, FIRST/LAST/UNWIND, ASYNC, CTE, derived table, ORDER/LIMIT, SETVAR/GETVAR, DISTINCT, FUSE)", "repetition": "second evaluation on an equal fresh input", "schedules": "≤1 preemption"},
+			{"documents": "0..2 rows with one nested row", "queries": "27 templates (NULL/missing operands in arithmetic, CASE, ARRAY, IF, tuples, aggregates and ORDER BY; ASYNC inside CTE, derived table and subquery read through SELECT *) covering every expression form and clause position (tuples, ARRAY, CASE, subqueries, EXISTS, IF/CONCAT, GROUP BY, joins, FIRST/LAST/UNWIND, ASYNC, CTE, derived table, ORDER/LIMIT, SETVAR/GETVAR, DISTINCT, FUSE)", "repetition": "second evaluation on an equal fresh input", "schedules": "≤1 preemption"},
 			{"documents": "same", "queries": "same", "repetition": "same", "schedules": "same"},
 		},
 		Outside: []string{"TIMESTAMP (clock)", "AWAIT (its argument is evaluated after the wait; result is schedule dependent but did not reproduce natively in 40 runs)"},
 	},
 	"C13": {
 		Bounds: [2]map[string]any{
-			{"threads": "2 concurrent ExecReader calls (4 selector texts, cold and warm cache); 2 concurrent queries (7 templates incl. ASYNC, SPINASYNC and a PARALLEL join) on separate and on one shared document", "schedules": "every schedule with ≤2 (readers) / ≤1 (queries) preemptions at synchronisation granularity; vector-clock happens-before race monitor"},
+			{"threads": "2 concurrent ExecReader calls (4 selector texts, cold and warm cache); 2 concurrent queries (7 templates incl. ASYNC, SPINASYNC and a PARALLEL join) on separate and on one shared document; 2 concurrent uses of distinct=>, mix=>, ranges and pipes through ExecReader and through FROM", "schedules": "every schedule with ≤2 (readers) / ≤1 (queries, selector functions) preemptions at synchronisation granularity; vector-clock happens-before race monitor"},
 			{"threads": "3 readers", "schedules": "≤2 preemptions"},
 		},
 		Outside: []string{"more threads", "effects below happens-before (word tearing)"},
@@ -170,7 +170,7 @@ var properties = map[string]propSpec{
 	},
 	"C17": {
 		Bounds: [2]map[string]any{
-			{"texts": "every byte string ≤5 over {\" ' ` [ ] a , blank 0xC3} (and over {\" ' \\ a `}) accepted by the tokenizer, for DoubleQuotesToBackTick; ≤5 over {[ ] ' \" ` a , 1} for FixIdiomaticArray", "queries": "3 double-quoted queries, nested bracket arrays, Wrapped() vs {root: input} on 0..2 rows"},
+			{"texts": "every byte string ≤5 over {\" ' ` [ ] a , blank 0xC3} (and over {\" ' \\ a `}) accepted by the tokenizer, for DoubleQuotesToBackTick; a double-quoted identifier after every prefix ≤3 bytes over {` \\ ' a blank}; ≤5 over {[ ] ' \" ` a , 1} for FixIdiomaticArray", "queries": "3 double-quoted queries, nested bracket arrays, Wrapped() vs {root: input} on 0..2 rows"},
 			{"texts": "≤6 bytes", "queries": "same"},
 		},
 		Outside: []string{"identifier bodies containing backslashes or backticks (the two quoting styles decode them differently)", "the oracle is the library's own MySQL tokenizer, run natively on concretised text"},
